@@ -92,7 +92,10 @@ def rule_operator_chain(ctx):
             if m["k"] == "Match":
                 for a in m["arms"]:
                     for p in pat_paths(a["pat"]):
-                        tab[last(p)] = last(render(strip(strip(a["body"])["args"][0]))) if strip(a["body"])["k"] == "Call" else render(a["body"])
+                        b_ = strip(a["body"])
+                        if b_["k"] == "Call" and render(b_["func"]) == "Ok" and len(b_["args"]) == 1:
+                            b_ = strip(b_["args"][0])  # `Ok(..)` around each arm or around the whole match
+                        tab[last(p)] = last(render(b_))
         ctx.check(R, "lifting/AssignOp", tab == {"AssignSignal": "AssignSignal", "AssignConstraintSignal": "AssignConstraintSignal", "AssignVar": "AssignLocalOrComponent"}, str(tab), site(IRL, f))
     # the substitution's operator is lifted from the statement's own operator
     for q, fn in fns_in_file(IRL):
